@@ -83,6 +83,18 @@ class _Rewriter(ast.NodeTransformer):
             )
         return node
 
+    def visit_Compare(self, node):
+        # `x in "literal"` / `x in name`: with a real str/bytes container and a symbolic item CPython
+        # raises TypeError before any proxy method is consulted
+        self.generic_visit(node)
+        if len(node.ops) == 1 and isinstance(node.ops[0], (ast.In, ast.NotIn)):
+            self.counts["in"] = self.counts.get("in", 0) + 1
+            call = ast.Call(func=ast.Name("__sx_in__", ast.Load()), args=[node.left, node.comparators[0]], keywords=[])
+            if isinstance(node.ops[0], ast.NotIn):
+                return ast.UnaryOp(op=ast.Not(), operand=call)
+            return call
+        return node
+
     def visit_ClassDef(self, node):
         self.generic_visit(node)
         for i, b in enumerate(node.bases):
